@@ -368,6 +368,10 @@ pub fn run(seed: u64, n: usize, out: &mut dyn Write) {
                         // A dual connector whose pre-summed part leaves 16 bits saturates, and WHICH templates are
                         // pre-summed depends on hash-map iteration order: such dictionaries are not reproducible
                         // (C07's caveat) and are left out; they are recognised by raw != dual in the library.
+                        // the option --dual-connector must select the connector type
+                        if vibrato::verif::connector_kind(&d) != if dual { 2 } else { 1 } {
+                            diffs.push("compile-bigram-kind".to_string());
+                        }
                         let saturating = dual && {
                             let raw = guarded(|| {
                                 SystemDictionaryBuilder::from_readers_with_bigram_info(
